@@ -315,6 +315,74 @@ def guards_strict(repo: Repo, rep: Report) -> None:
         raise AnalysisError(f"candidates(): update kinds found {kinds}")
 
 
+def _connected_subsets(h: int, w: int, max_size: int) -> List[List[Tuple[int, int]]]:
+    cells_ = [(y, x) for y in range(h) for x in range(w)]
+    out = []
+    for mask in range(1, 1 << len(cells_)):
+        sub = [c for k, c in enumerate(cells_) if mask >> k & 1]
+        if 2 <= len(sub) <= max_size and connected(sub):
+            out.append(sub)
+    return out
+
+
+def _split_job(args) -> Tuple[str, Optional[str], int]:
+    root, overrides, blocks = args
+    repo = Repo(root, overrides)
+    cw = ClassWorld([repo.mod(BUILDER), repo.mod(SEG)])
+    cw.ev.max_steps = 3_000_000
+    cw.ev.max_loop = 5000
+    cw.genv["deepcopy"] = copy.deepcopy
+    n = 0
+    try:
+        for block in blocks:
+            # every order in which the cells may be listed matters little; every pair of distinct seeds does
+            for a in range(len(block)):
+                for b in range(len(block)):
+                    if a == b:
+                        continue
+                    draws = iter([a, b])
+                    cw.genv["srandom.randint"] = lambda lo, hi, draws=draws: next(draws)
+                    cw.ev.steps = 0
+                    n += 1
+                    res = cw.call("split_block", list(block))
+                    if not (isinstance(res, tuple) and len(res) == 2):
+                        return "bad", f"split_block({block}) with seeds {block[a]}, {block[b]} returns {res!r}", n
+                    pa, pb = [tuple(c) for c in res[0]], [tuple(c) for c in res[1]]
+                    if sorted(pa + pb) != sorted(block) or not pa or not pb:
+                        return "bad", f"split_block({block}) with seeds {block[a]}, {block[b]} returns {pa} / {pb}: not a partition into two non-empty parts", n
+                    for part in (pa, pb):
+                        if not connected(part):
+                            return "bad", (f"split_block({block}) with seeds {block[a]}, {block[b]} returns the part {part}, "
+                                           "which is not orthogonally connected"), n
+    except StopIteration:
+        return "undecided", "split_block draws more than two random numbers for distinct seeds", n
+    except Undecided as ex:
+        return "undecided", str(ex), n
+    except Raised as ex:
+        return "bad", f"split_block raises {ex.what}", n
+    except IndexOutOfRange as ex:
+        return "bad", f"split_block raises IndexError ({ex})", n
+    return "ok", None, n
+
+
+def split_semantics(repo: Repo, rep: Report) -> None:
+    rep.rule("SEG-S", "split_block: for every connected block of at most 6 cells inside a 3x3 board (5 cells in 2x4) and every pair of distinct seed cells, "
+                      "the two parts are non-empty, orthogonally connected and partition the block")
+    blocks = _connected_subsets(3, 3, 6 if rep.tier != "quick" else 5) + _connected_subsets(2, 4, 5)
+    chunks = [blocks[i::16] for i in range(16)]
+    with ProcessPoolExecutor(max_workers=16) as ex:
+        results = list(ex.map(_split_job, [(repo.root, repo.overrides, ch) for ch in chunks if ch]))
+    bad = [r for r in results if r[0] == "bad"]
+    und = [r for r in results if r[0] == "undecided"]
+    total = sum(r[2] for r in results)
+    if bad:
+        rep.finding("SEG-S", SEG, "split_block", "split of a block", bad[0][1] or "")
+    elif und:
+        rep.undecide("SEG-S", und[0][1] or "")
+    else:
+        rep.ok("SEG-S", f"{len(blocks)} connected blocks x all ordered pairs of distinct seeds = {total} splits: two non-empty connected parts each", points=total)
+
+
 class _Hold:
     """SEG-G failures mean 'not entailed by the guards', not 'refuted': they are reported as violations only when SEG-E
     has a concrete history that breaks a bound; alone they leave the property undecided (exit 2)"""
@@ -338,6 +406,7 @@ def run(repo: Repo, rep: Report) -> None:
     hold = _Hold(rep)
     guards_strict(repo, hold)  # type: ignore[arg-type]
     before = len(rep.findings)
+    split_semantics(repo, rep)
     evaluation(repo, rep)
     witnessed = len(rep.findings) > before
     for h in hold.held:
